@@ -141,13 +141,13 @@ pub fn read_wmsg(e: &crate::text::SExp) -> Option<WMsg> {
         return None;
     }
     let mut groups = vec![];
-    for g in &l[4..] {
+    for g in l.get(4..)? {
         let gl = g.list()?;
         if gl.first()?.atom()? != "wg" {
             return None;
         }
         let mut attrs = vec![];
-        for a in &gl[2..] {
+        for a in gl.get(2..)? {
             let al = a.list()?;
             if al.first()?.atom()? != "wa" {
                 return None;
